@@ -424,7 +424,8 @@ static int _fetch_headers(OggVorbis_File *vf,vorbis_info *vi,vorbis_comment *vc,
 /* Starting from current cursor position, get initial PCM offset of
    next page.  Consumes the page in the process without decoding
    audio, however this is only called during stream parsing upon
-   seekable open. */
+   seekable open.  A read error is answered with OV_EREAD (negative;
+   an offset never is). */
 static ogg_int64_t _initial_pcmoffset(OggVorbis_File *vf, vorbis_info *vi){
   ogg_page    og;
   ogg_int64_t accumulated=0;
@@ -434,7 +435,10 @@ static ogg_int64_t _initial_pcmoffset(OggVorbis_File *vf, vorbis_info *vi){
 
   while(1){
     ogg_packet op;
-    if(_get_next_page(vf,&og,-1)<0)
+    ogg_int64_t ret=_get_next_page(vf,&og,-1);
+    if(ret==OV_EREAD)return(OV_EREAD); /* a failing source is not the
+                                          end of the link */
+    if(ret<0)
       break; /* should not be possible unless the file is truncated/mangled */
 
     if(ogg_page_bos(&og)) break;
@@ -585,6 +589,12 @@ static int _bisect_forward_serialno(OggVorbis_File *vf,
     /* this will consume a page, however the next bisection always
        starts with a raw seek */
     pcmoffset = _initial_pcmoffset(vf,&vi);
+    if(pcmoffset<0){
+      vorbis_info_clear(&vi);
+      vorbis_comment_clear(&vc);
+      if(next_serialno_list)_ogg_free(next_serialno_list);
+      return((int)pcmoffset);
+    }
 
     /* search on from the end of this link's headers, not from
        vf->offset: if the link has no audio at all, the page just
@@ -642,6 +652,7 @@ static int _open_seekable2(OggVorbis_File *vf){
 
   /* fetch initial PCM offset */
   ogg_int64_t pcmoffset = _initial_pcmoffset(vf,vf->vi);
+  if(pcmoffset<0)return((int)pcmoffset);
 
   /* we can seek, so set out learning all about this file */
   if(vf->callbacks.seek_func && vf->callbacks.tell_func){
